@@ -277,70 +277,7 @@ func c09(r *Report, s *Sem) {
 	}
 	checkOffer("CompressionOptions", "SupportedCompression", "")
 	checkOffer("EncryptionOptions", "SupportedEncryption", "")
-	// the intersection helper cannot return a superset
-	if inter == nil {
-		r.Undecided(R1, "anchor-unresolved:intersect", "-", "intersection helper not found")
-	} else {
-		contains := p.Func("contains")
-		okApp, nApp := true, 0
-		eachInstr(inter, func(in ssa.Instruction) {
-			c, ok := in.(*ssa.Call)
-			if !ok {
-				return
-			}
-			if b, ok := c.Call.Value.(*ssa.Builtin); !ok || b.Name() != "append" {
-				return
-			}
-			nApp++
-			// appended element
-			var el ssa.Value
-			for _, o := range sliceOriginsElems(c.Call.Args[1]) {
-				el = o
-			}
-			guard := condGuard(c.Block(), func(cd Cond) bool {
-				if cd.Op != token.ILLEGAL || !cd.True {
-					return false
-				}
-				call, _ := callOf(cd.Val)
-				if call == nil || call.Call.StaticCallee() != contains || contains == nil {
-					return false
-				}
-				return stripConv(call.Call.Args[0]) == ssa.Value(inter.Params[1]) && el != nil && stripConv(call.Call.Args[1]) == stripConv(el)
-			})
-			// the element is taken from the first operand
-			fromFirst := false
-			for _, o := range sliceOrigins(c.Call.Args[1]) {
-				if stripConv(o) == ssa.Value(inter.Params[0]) {
-					fromFirst = true
-				}
-			}
-			if !guard || !fromFirst {
-				okApp = false
-			}
-		})
-		r.Check(R1, "func intersect / keeps only elements of operand 1 that are members of operand 2", p.pos(inter.Pos()), okApp && nApp == 1, fmt.Sprintf("%d append site(s)", nApp))
-		if contains != nil {
-			okC := true
-			for _, rl := range returnLeaves(contains, 0) {
-				c, isC := rl.v.(*ssa.Const)
-				if !isC {
-					okC = false
-					continue
-				}
-				if c.Value.String() == "true" {
-					eq := condGuard(rl.b, func(cd Cond) bool {
-						return cd.Op == token.EQL && (stripConv(cd.X) == ssa.Value(contains.Params[1]) || stripConv(cd.Y) == ssa.Value(contains.Params[1]))
-					})
-					if !eq {
-						okC = false
-					}
-				}
-			}
-			r.Check(R1, "func contains / true only on an equality edge with the element", p.pos(contains.Pos()), okC, "membership helper must not report members that are not there")
-		} else {
-			r.Undecided(R1, "anchor-unresolved:contains", "-", "membership helper not found")
-		}
-	}
+	checkIntersectExact(r, s, R1)
 
 	// ---- R2
 	confirmCallInDriver := func() *ssa.Call {
@@ -812,6 +749,127 @@ func c09TCP(r *Report, s *Sem, R5 string) {
 		}
 	}
 	r.Check(R5, "func "+fnName(setEnc)+" / encryption recorded after a successful handshake", p.pos(setEnc.Pos()), okStore && n == 1, fmt.Sprintf("%d store(s) to the encryption field", n))
+	// what was read ahead in plaintext is dropped: on the success path a new JSON decoder is built over the TLS connection
+	// (the old decoder may hold bytes a peer pipelined before the handshake; decoding them afterwards would treat
+	// plaintext as if it had travelled under the negotiated encryption)
+	var hsConn ssa.Value
+	if hs != nil && len(hs.Call.Args) > 0 {
+		hsConn = stripConv(hs.Call.Args[0])
+	}
+	buildsDecoderOver := func(g *ssa.Function, argIdx int) bool {
+		// g (or a callee, bounded) calls json.NewDecoder on a reader derived from its parameter argIdx
+		found := false
+		var rec func(f *ssa.Function, prm ssa.Value, d int)
+		rec = func(f *ssa.Function, prm ssa.Value, d int) {
+			if d > 3 || found {
+				return
+			}
+			derives := func(v ssa.Value) bool {
+				seen := map[ssa.Value]bool{}
+				var dv func(v ssa.Value, k int) bool
+				dv = func(v ssa.Value, k int) bool {
+					if k > 12 || seen[v] {
+						return false
+					}
+					seen[v] = true
+					for _, l := range leaves(v) {
+						l = stripConv(l)
+						if l == prm {
+							return true
+						}
+						switch x := l.(type) {
+						case *ssa.Alloc:
+							for _, ref := range *x.Referrers() {
+								if st, ok := ref.(*ssa.Store); ok && dv(st.Val, k+1) {
+									return true
+								}
+								if fa, ok := ref.(*ssa.FieldAddr); ok {
+									for _, r2 := range *fa.Referrers() {
+										if st, ok := r2.(*ssa.Store); ok && st.Addr == ssa.Value(fa) && dv(st.Val, k+1) {
+											return true
+										}
+									}
+								}
+							}
+						case *ssa.Call:
+							for _, a := range x.Call.Args {
+								if dv(a, k+1) {
+									return true
+								}
+							}
+						case *ssa.FieldAddr:
+							// &t.field: what was stored into that field in this function
+							for _, st := range fieldStores([]*ssa.Function{f}, structField(x.X.Type(), x.Field)) {
+								if dv(st.Val, k+1) {
+									return true
+								}
+							}
+						case *ssa.UnOp:
+							if dv(x.X, k+1) {
+								return true
+							}
+						}
+					}
+					return false
+				}
+				return dv(v, 0)
+			}
+			eachCall(f, func(c ssa.CallInstruction) {
+				g2 := staticCallee(c)
+				if g2 == nil {
+					return
+				}
+				if g2.Name() == "NewDecoder" && g2.Pkg != nil && g2.Pkg.Pkg.Path() == "encoding/json" {
+					if derives(c.Common().Args[0]) {
+						found = true
+					}
+					return
+				}
+				if g2.Pkg == p.Lime {
+					for i, a := range c.Common().Args {
+						if i < len(g2.Params) && derives(a) {
+							rec(g2, g2.Params[i], d+1)
+						}
+					}
+				}
+			})
+		}
+		rec(g, g.Params[argIdx], 0)
+		return found
+	}
+	fresh := false
+	if hs != nil && hsConn != nil {
+		leak := false
+		walkFrom(setEnc, hs, walkOpts{
+			cutEdge: func(from *ssa.BasicBlock, k int) bool {
+				ifi := ifOf(from)
+				if ifi == nil {
+					return false
+				}
+				isNil, ok := errTestOf(ifi, k == 0, hs)
+				return ok && !isNil
+			},
+			barrier: func(in ssa.Instruction) bool {
+				c, ok := in.(*ssa.Call)
+				if !ok {
+					return false
+				}
+				g := c.Call.StaticCallee()
+				if g == nil || g.Pkg != p.Lime {
+					return false
+				}
+				for i, a := range c.Call.Args {
+					if stripConv(a) == hsConn && i < len(g.Params) && buildsDecoderOver(g, i) {
+						fresh = true
+						return true
+					}
+				}
+				return false
+			},
+			onExit: func(e ssa.Instruction, pred *ssa.BasicBlock) { leak = true }})
+		fresh = fresh && !leak
+	}
+	r.Check(R5, "func "+fnName(setEnc)+" / a new decoder is built over the TLS connection", p.pos(setEnc.Pos()), fresh, "every success path after the handshake must pass the TLS connection to the function that builds the JSON decoder: bytes read ahead in plaintext must not be decoded as if they had been encrypted")
 	// none requested while different ⇒ error
 	okDown := false
 	for _, rl := range returnLeaves(setEnc, 0) {
@@ -1222,6 +1280,80 @@ func c10(r *Report, s *Sem) {
 		}
 	}
 	r.Check(R2, "func "+fnName(na.serverEst)+" / negotiable encryption = configured ∩ supported", p.instrPos(na.negCall), ok2, detail)
+	checkIntersectExact(r, s, R2)
 	R3 := r.Rule("R3", "when negotiation runs, its result is from the offer: the confirmation (and the upgrade) sit on the ok edges of lookups of the peer's selection in sets built from the offered lists — an omitted or merely supported encryption is refused", 3)
 	checkNegotiationGate(r, s, R3)
+}
+
+// checkIntersectExact: the helper computing "configured ∩ supported" returns exactly the elements of its first operand
+// that are members of the second — none added (C09: nothing is offered that was not configured and supported) and none
+// dropped (C10: an option that is both configured and supported must not vanish from the negotiable set, or a required
+// negotiation is skipped).
+func checkIntersectExact(r *Report, s *Sem, R1 string) {
+	p := r.P
+	inter := p.Func("intersect")
+	if inter == nil {
+		r.Undecided(R1, "anchor-unresolved:intersect", "-", "intersection helper not found")
+	} else {
+		contains := p.Func("contains")
+		okApp, nApp := true, 0
+		eachInstr(inter, func(in ssa.Instruction) {
+			c, ok := in.(*ssa.Call)
+			if !ok {
+				return
+			}
+			if b, ok := c.Call.Value.(*ssa.Builtin); !ok || b.Name() != "append" {
+				return
+			}
+			nApp++
+			// appended element
+			var el ssa.Value
+			for _, o := range sliceOriginsElems(c.Call.Args[1]) {
+				el = o
+			}
+			guard := condGuard(c.Block(), func(cd Cond) bool {
+				if cd.Op != token.ILLEGAL || !cd.True {
+					return false
+				}
+				call, _ := callOf(cd.Val)
+				if call == nil || call.Call.StaticCallee() != contains || contains == nil {
+					return false
+				}
+				return stripConv(call.Call.Args[0]) == ssa.Value(inter.Params[1]) && el != nil && stripConv(call.Call.Args[1]) == stripConv(el)
+			})
+			// the element is taken from the first operand
+			fromFirst := false
+			for _, o := range sliceOrigins(c.Call.Args[1]) {
+				if stripConv(o) == ssa.Value(inter.Params[0]) {
+					fromFirst = true
+				}
+			}
+			if !guard || !fromFirst {
+				okApp = false
+			}
+		})
+		r.Check(R1, "func intersect / keeps only elements of operand 1 that are members of operand 2", p.pos(inter.Pos()), okApp && nApp == 1, fmt.Sprintf("%d append site(s)", nApp))
+		if contains != nil {
+			okC := true
+			for _, rl := range returnLeaves(contains, 0) {
+				c, isC := rl.v.(*ssa.Const)
+				if !isC {
+					okC = false
+					continue
+				}
+				if c.Value.String() == "true" {
+					eq := condGuard(rl.b, func(cd Cond) bool {
+						return cd.Op == token.EQL && (stripConv(cd.X) == ssa.Value(contains.Params[1]) || stripConv(cd.Y) == ssa.Value(contains.Params[1]))
+					})
+					if !eq {
+						okC = false
+					}
+				}
+			}
+			r.Check(R1, "func contains / true only on an equality edge with the element", p.pos(contains.Pos()), okC, "membership helper must not report members that are not there")
+		} else {
+			r.Undecided(R1, "anchor-unresolved:contains", "-", "membership helper not found")
+		}
+	}
+
 }
